@@ -312,7 +312,7 @@ pub fn run(tier: &str, slice: (u64, u64), seed: u64) -> WorkerResult {
                 res.violate(v);
             }
             res.count("sequences", 1);
-            if res.samples.len() < 2 {
+            if res.samples.len() < 2 && i % 997 == 123 {
                 res.sample(case_json(cfg, prefix, &opsq));
             }
         }
